@@ -70,10 +70,17 @@ def _mutated_names(node: ast.AST) -> Set[str]:
 
 
 class SymExec:
-    def __init__(self, fnode: ast.FunctionDef, inline_helpers: bool = True) -> None:
+    def __init__(self, fnode: ast.FunctionDef, inline_helpers: bool = True, keep_raise: bool = False, effect_vars=None, with_resets=None, extra_helpers=None) -> None:
+        """`effect_vars`: {dotted call name: pseudo-variable}; an expression statement `name(arg)` is read as
+        `pseudo = arg` (e.g. `warnings.simplefilter(x)` sets the pseudo-variable holding the active filter).
+        `with_resets`: {dotted context-manager name: [pseudo-variables reset to `<inherited>` on entry]}."""
         self.fnode = fnode
+        self.keep_raise = keep_raise
+        self.effect_vars = dict(effect_vars or {})
+        self.with_resets = dict(with_resets or {})
+        self.extra_helpers = dict(extra_helpers or {})
         self.before: Dict[int, Env] = {}
-        self.helpers: Dict[str, Tuple[ast.FunctionDef, ast.AST]] = {}
+        self.helpers: Dict[str, Tuple[ast.FunctionDef, ast.AST]] = dict(extra_helpers or {})
         self.inline_helpers = inline_helpers
         self._opaque = 0
         a = fnode.args
@@ -150,6 +157,22 @@ class SymExec:
                 for i, t in enumerate(target.elts):
                     env = self._bind_target(env, t, ast.Subscript(value=copy.deepcopy(value), slice=ast.Constant(value=i), ctx=ast.Load()), at)
                 return env
+            stars = [i for i, e in enumerate(target.elts) if isinstance(e, ast.Starred)]
+            if len(stars) == 1 and isinstance(target.elts[stars[0]].value, ast.Name):
+                # a, *rest, z = v :  a = v[0], rest = list(v[1:-1]), z = v[-1]
+                k = stars[0]
+                after = len(target.elts) - k - 1
+                for i, t in enumerate(target.elts):
+                    if i < k:
+                        sub = ast.Subscript(value=copy.deepcopy(value), slice=ast.Constant(value=i), ctx=ast.Load())
+                    elif i == k:
+                        sl = ast.Slice(lower=ast.Constant(value=k) if k else None, upper=ast.UnaryOp(op=ast.USub(), operand=ast.Constant(value=after)) if after else None)
+                        sub = ast.Call(func=ast.Name(id='list', ctx=ast.Load()), args=[ast.Subscript(value=copy.deepcopy(value), slice=sl, ctx=ast.Load())], keywords=[])
+                        t = t.value
+                    else:
+                        sub = ast.Subscript(value=copy.deepcopy(value), slice=ast.UnaryOp(op=ast.USub(), operand=ast.Constant(value=len(target.elts) - i)), ctx=ast.Load())
+                    env = self._bind_target(env, t, ast.fix_missing_locations(sub), at)
+                return env
             return self._havoc(env, _names_stored(target), at)
         if isinstance(target, ast.Subscript) and isinstance(target.value, ast.Name):
             nm = target.value.id
@@ -175,6 +198,12 @@ class SymExec:
 
     def _expr_stmt(self, env: Env, s: ast.Expr) -> Env:
         v = s.value
+        if self.effect_vars and isinstance(v, ast.Call) and len(v.args) >= 1:
+            d = ast.unparse(v.func)
+            if d in self.effect_vars:
+                env = dict(env)
+                env[self.effect_vars[d]] = self.subst(v.args[0], env)
+                return env
         if isinstance(v, ast.Call) and isinstance(v.func, ast.Attribute) and isinstance(v.func.value, ast.Name):
             nm, m = v.func.value.id, v.func.attr
             cur = env.get(nm)
@@ -218,6 +247,84 @@ class SymExec:
                 return self._havoc(env, {nm}, s)
         return env
 
+    def _unroll_first_match(self, s: ast.For, env: Env):
+        """`for T in <constant table>: [x = e] if C: <assignments>; break` - the first matching row applies: the names
+        assigned become a chain of conditional expressions over the rows.  None if the loop is not of that shape."""
+        it = self.subst(s.iter, env)
+        if not (isinstance(it, (ast.Tuple, ast.List)) and 0 < len(it.elts) <= 12 and not any(isinstance(e, ast.Starred) for e in it.elts)):
+            return None
+        pre, tail = s.body[:-1], s.body[-1]
+        if not all(isinstance(x, ast.Assign) and len(x.targets) == 1 and isinstance(x.targets[0], ast.Name) for x in pre):
+            return None
+        if not (isinstance(tail, ast.If) and not tail.orelse and tail.body and isinstance(tail.body[-1], ast.Break)
+                and all(isinstance(x, ast.Assign) and len(x.targets) == 1 and isinstance(x.targets[0], ast.Name) for x in tail.body[:-1])):
+            return None
+        assigned = [x.targets[0].id for x in tail.body[:-1]]
+        loop_locals = {x.id for x in ast.walk(s.target) if isinstance(x, ast.Name)} | {x.targets[0].id for x in pre}
+        if set(assigned) & loop_locals:
+            return None
+        acc = {v: env.get(v, ast.Name(id=v, ctx=ast.Load())) for v in assigned}
+        for elt in reversed(it.elts):
+            env_i = self._bind_target(dict(env), s.target, elt, s)
+            for x in pre:
+                env_i = self._bind_target(env_i, x.targets[0], self.subst(x.value, env_i), x)
+            cond = self.subst(tail.test, env_i)
+            arm = dict(env_i)
+            for x in tail.body[:-1]:
+                arm = self._bind_target(arm, x.targets[0], self.subst(x.value, arm), x)
+            for v in assigned:
+                acc[v] = ast.IfExp(test=copy.deepcopy(cond), body=arm[v], orelse=acc[v])
+        return acc
+
+    def _loop_as_comprehension(self, s: ast.For, env: Env):
+        """`for T in I: [if C: continue] [x = e] [if D:] L.append(E)` with L an empty list before the loop (or `M[K] = V` with M
+        an empty dict) and nothing else happening: (name, equivalent comprehension), else None."""
+        targets = {x.id for x in ast.walk(s.target) if isinstance(x, ast.Name)}
+        conds: List[ast.AST] = []
+        local: Env = {k: ast.Name(id=k, ctx=ast.Load()) for k in targets}
+        found = []
+
+        def rd(e: ast.AST) -> ast.AST:
+            outer = {k: v for k, v in env.items() if k not in local}
+            return self.subst(e, {**outer, **local})
+
+        def block(stmts) -> bool:
+            for i, st in enumerate(stmts):
+                if isinstance(st, ast.Pass) or (isinstance(st, ast.Expr) and isinstance(st.value, ast.Constant)):
+                    continue
+                if isinstance(st, ast.Assign) and len(st.targets) == 1 and isinstance(st.targets[0], ast.Name) and not found:
+                    local[st.targets[0].id] = rd(st.value)
+                    continue
+                if isinstance(st, ast.If) and not st.orelse and len(st.body) == 1 and isinstance(st.body[0], ast.Continue) and not found:
+                    conds.append(ast.UnaryOp(op=ast.Not(), operand=rd(st.test)))
+                    continue
+                if isinstance(st, ast.If) and not st.orelse and i == len(stmts) - 1 and not found:
+                    conds.append(rd(st.test))
+                    return block(st.body)
+                if isinstance(st, ast.Continue) and i == len(stmts) - 1 and found:
+                    continue
+                if isinstance(st, ast.Expr) and isinstance(st.value, ast.Call) and isinstance(st.value.func, ast.Attribute) and st.value.func.attr == 'append' \
+                        and isinstance(st.value.func.value, ast.Name) and len(st.value.args) == 1 and not found:
+                    found.append(('list', st.value.func.value.id, rd(st.value.args[0]), None))
+                    continue
+                if isinstance(st, ast.Assign) and len(st.targets) == 1 and isinstance(st.targets[0], ast.Subscript) and isinstance(st.targets[0].value, ast.Name) \
+                        and not isinstance(st.targets[0].slice, ast.Slice) and not found:
+                    found.append(('dict', st.targets[0].value.id, rd(st.value), rd(st.targets[0].slice)))
+                    continue
+                return False
+            return True
+
+        if not block(s.body) or len(found) != 1:
+            return None
+        kind, name, val, key = found[0]
+        cur = env.get(name)
+        gens = [ast.comprehension(target=copy.deepcopy(s.target), iter=self.subst(s.iter, env), ifs=conds, is_async=0)]
+        if kind == 'list' and isinstance(cur, ast.List) and not cur.elts and name not in targets:
+            return name, ast.fix_missing_locations(ast.ListComp(elt=val, generators=gens))
+        if kind == 'dict' and isinstance(cur, ast.Dict) and not cur.keys and name not in targets:
+            return name, ast.fix_missing_locations(ast.DictComp(key=key, value=val, generators=gens))
+        return None
+
     def _run(self, stmts: List[ast.stmt], env: Env) -> Optional[Env]:
         """Environment after the block, or None if every path through it leaves (return/raise/break/continue)."""
         for s in stmts:
@@ -250,7 +357,22 @@ class SymExec:
                 ef = self._run(s.orelse, env) if s.orelse else env
                 if et is None and ef is None:
                     return None
-                if et is None:
+                if (et is None or ef is None) and self.keep_raise:
+                    # one arm leaves: what the other arm assigns holds only under its condition
+                    live, live_is_true = (ef, False) if et is None else (et, True)
+                    gone = s.body if et is None else s.orelse
+                    mark = ast.Name(id='<raise>' if gone and isinstance(gone[-1], ast.Raise) else '<leaves>', ctx=ast.Load())
+                    merged2: Env = {}
+                    for k, v in live.items():
+                        before = env.get(k)
+                        if before is not None and ast.dump(before) == ast.dump(v):
+                            merged2[k] = v
+                        elif before is None and isinstance(v, ast.Name) and v.id == k:
+                            merged2[k] = v
+                        else:
+                            merged2[k] = ast.IfExp(test=copy.deepcopy(test), body=v, orelse=mark) if live_is_true else ast.IfExp(test=copy.deepcopy(test), body=mark, orelse=v)
+                    env = merged2
+                elif et is None:
                     env = ef
                 elif ef is None:
                     env = et
@@ -274,14 +396,28 @@ class SymExec:
                 self._run(s.body, env_body)
                 if s.orelse:
                     self._run(s.orelse, env_in)
+                built = self._loop_as_comprehension(s, env) if isinstance(s, ast.For) and not s.orelse else None
+                unrolled = self._unroll_first_match(s, env) if isinstance(s, ast.For) and not s.orelse and built is None else None
                 env = env_in
+                if built is not None:
+                    env = dict(env)
+                    env[built[0]] = built[1]
+                if unrolled is not None:
+                    env = dict(env)
+                    env.update(unrolled)
                 continue
             if isinstance(s, ast.With):
                 bound = set()
+                resets = []
                 for i in s.items:
                     if i.optional_vars is not None:
                         bound |= _names_stored(i.optional_vars)
-                env2 = self._run(s.body, self._havoc(env, bound, s))
+                    cm = i.context_expr.func if isinstance(i.context_expr, ast.Call) else i.context_expr
+                    resets += self.with_resets.get(ast.unparse(cm), [])
+                env_w = self._havoc(env, bound, s)
+                for r_ in resets:
+                    env_w[r_] = ast.Name(id='<inherited>', ctx=ast.Load())
+                env2 = self._run(s.body, env_w)
                 if env2 is None:
                     return None
                 env = env2
@@ -404,8 +540,25 @@ class _Canon(ast.NodeTransformer):
                 flipped = True
         return ast.IfExp(test=t, body=a, orelse=b)
 
+    def visit_BoolOp(self, node: ast.BoolOp):
+        self.generic_visit(node)
+        return node
+
     def visit_Call(self, node: ast.Call):
         self.generic_visit(node)
+        # min(gen, default=d)  ==  min(gen) if <iterated> else d     (gen without filters)
+        if isinstance(node.func, ast.Name) and node.func.id in ('max', 'min') and len(node.args) == 1 and len(node.keywords) == 1 and node.keywords[0].arg == 'default' \
+                and isinstance(node.args[0], (ast.GeneratorExp, ast.ListComp)) and len(node.args[0].generators) == 1 and not node.args[0].generators[0].ifs:
+            it = node.args[0].generators[0].iter
+            return ast.IfExp(test=copy.deepcopy(it), body=ast.Call(func=node.func, args=[node.args[0]], keywords=[]), orelse=node.keywords[0].value)
+        # abs(x if c else y) == abs(x) if c else abs(y);  abs(<number>) folds
+        if isinstance(node.func, ast.Name) and node.func.id == 'abs' and len(node.args) == 1 and not node.keywords:
+            a0 = node.args[0]
+            if isinstance(a0, ast.IfExp):
+                return self.visit_IfExp(ast.IfExp(test=a0.test, body=self.visit_Call(ast.Call(func=node.func, args=[a0.body], keywords=[])),
+                                                  orelse=self.visit_Call(ast.Call(func=node.func, args=[a0.orelse], keywords=[]))))
+            if isinstance(a0, ast.Constant) and type(a0.value) in (int, float):
+                return ast.Constant(value=abs(a0.value))
         if isinstance(node.func, ast.Name) and node.func.id in ('max', 'min') and len(node.args) >= 2 and not node.keywords \
                 and not any(isinstance(a, ast.Starred) for a in node.args):
             node.args = sorted(node.args, key=lambda a: ast.unparse(a))
@@ -442,3 +595,39 @@ def merge_layers(e: ast.AST):
         if len(la) < len(lb) and all(same(x, y) for x, y in zip(la, lb)):
             return la + [(x[0], e.test, False) if x[1] is None else x for x in lb[len(la):]]
     return [(e, None, True)]
+
+
+def seq_elements(e: ast.AST):
+    """A sequence-building expression as a list of ('elt', expr) / ('star', expr): displays, `tuple(x)` / `list(x)`,
+    `a + b`, starred items; `x[k:]` is one starred run.  None if `e` is not such an expression."""
+    if isinstance(e, (ast.Tuple, ast.List)):
+        out = []
+        for x in e.elts:
+            if isinstance(x, ast.Starred):
+                inner = seq_elements(x.value)
+                out += inner if inner is not None else [('star', x.value)]
+            else:
+                out.append(('elt', x))
+        return out
+    if isinstance(e, ast.Call) and isinstance(e.func, ast.Name) and e.func.id in ('tuple', 'list') and len(e.args) == 1 and not e.keywords:
+        inner = seq_elements(e.args[0])
+        return inner if inner is not None else [('star', e.args[0])]
+    if isinstance(e, ast.BinOp) and isinstance(e.op, ast.Add):
+        a, b = seq_elements(e.left), seq_elements(e.right)
+        if a is None or b is None:
+            return None
+        return a + b
+    if isinstance(e, ast.Subscript) and isinstance(e.slice, ast.Slice):
+        return [('star', e)]
+    return None
+
+
+def leaves(e: ast.AST, facts=()):
+    """The leaves of a tree of conditional expressions with the facts (atom, truth) under which each is taken."""
+    from .match import nnf_atoms
+    if isinstance(e, ast.IfExp):
+        out = []
+        out += leaves(e.body, tuple(facts) + tuple(nnf_atoms(e.test, True)))
+        out += leaves(e.orelse, tuple(facts) + tuple(nnf_atoms(e.test, False)))
+        return out
+    return [(list(facts), e)]
